@@ -176,6 +176,14 @@ DeclCall(d, ep, inp, env, nv) ==
     [] ep = "parse"     -> IF inp.ok THEN DeclCtor(d, inp.v[1], env, nv) ELSE ParseErrOut   \* C06
     [] ep = "deser"     -> IF inp.ok THEN DeclCtor(d, inp.v[1], env, nv) ELSE DeErrOut      \* C04
 
+\* C11 applies to guards whose sanitisation is idempotent by construction: only
+\* built-in sanitizers, or a single custom one from the idempotent part of the
+\* catalogue.  Validators never change a value, so any of them may be present.
+IdemFns == {"clamp", "to_k", "nan_to", "sort", "take2"}
+Builtin(d) ==
+  \/ \A i \in DOMAIN d.san : d.san[i].k \in {"trim", "lowercase", "uppercase"}
+  \/ (Len(d.san) = 1 /\ d.san[1].k = "with" /\ d.san[1].fn \in IdemFns)
+
 \* Set of values obtainable through the guarded constructor from `Dom`.
 ValidSet(d, Dom, env, nv) == {OutVal(DeclCtor(d, x, env, nv)) : x \in {y \in Dom : IsOk(DeclCtor(d, y, env, nv))}}
 
